@@ -544,8 +544,9 @@ class Interp:
             o = Inst(cls)
         found, init, owner = cls.lookup('__init__')
         if found and owner is not object:
-            if isinstance(owner, IClass):
-                self.call(init, [o] + list(args), kwpairs)
+            if isinstance(owner, type) and issubclass(owner, BaseException):
+                # BaseException.__init__(*args): stores the arguments (class UnknownForwards(ValueError): pass)
+                o._d['args'] = tuple(args)
             else:
                 self.call(init, [o] + list(args), kwpairs)
         elif args or kwpairs:
@@ -1189,6 +1190,7 @@ class Interp:
         try:
             yield from self.exec_with(s, i + 1, frame)
         except PyExc as ex:
+            self.pending_with_exc = ex
             r = self.call(exit_, [ex.typ, self.exc_value(ex), None], [])
             if not self.truth(r):
                 raise
@@ -1235,6 +1237,8 @@ class Interp:
     def exc_matches(self, typ, h):
         if isinstance(h, tuple):
             return any(self.exc_matches(typ, x) for x in h)
+        if getattr(typ, '_vf_symbolic_exc', False):
+            return typ.matches(self, h)       # class of an external exception: solver variable, forks here
         if isinstance(typ, IClass):
             return h in typ.mro or any(isinstance(c, type) and isinstance(h, type) and issubclass(c, h) for c in typ.mro if not isinstance(c, IClass))
         if isinstance(h, IClass):
@@ -1267,6 +1271,8 @@ class Interp:
             return v
         if src.startswith('wraps(') or src.startswith('functools.wraps('):
             return v
+        if src in ('contextlib.contextmanager', 'contextmanager'):
+            return self.call(self.ev(d, frame), [v], [])      # modelled (models.native_module('contextlib'))
         if frame.fn is not None:
             # decorator inside a function body: evaluate it for real
             dv = self.ev(d, frame)
